@@ -54,6 +54,25 @@ Proof.
     inversion Heq as [H]. apply Hinj in H. subst. reflexivity.
 Qed.
 
+(* at the point of use: the generator a component makes from its options is made from the child seed itself
+   (options_rng_passthrough, generated), so distinct children give distinct generators *)
+Lemma generators_distinct_at_use_l : forall (Seed Gen : Type) (spawn : nat -> Seed) (gen_of : Seed -> Gen),
+  (forall i j, spawn i = spawn j -> i = j) ->
+  (forall s t, gen_of s = gen_of t -> s = t) ->
+  options_rng_passthrough = true ->
+  forall k, k = KSeedLike \/ k = KSeedSequence ->
+  forall retrain sb ns,
+    let calls := ptrain_calls (pt_seed_plan k) pt_spawn_width retrain (start_index (pt_seed_plan k) sb) ns in
+    NoDup (map (fun c => match pc_rng c with CSpawn i => Some (gen_of (spawn i)) | CSame => None end) calls).
+Proof.
+  intros Seed Gen spawn gen_of Hs Hg _ k Hk retrain sb ns.
+  apply (seeds_distinct_l Gen (fun i => gen_of (spawn i))); [|exact Hk].
+  intros i j H. apply Hs. apply Hg. exact H.
+Qed.
+
+Lemma options_passthrough_l : options_rng_passthrough = true.
+Proof. reflexivity. Qed.
+
 Lemma pipeline_retrain_equals_fresh_l : forall (D B : Type) (fit : D -> B * child_rng -> store -> fitres) k cs h d o,
   (forall c fr, In c cs -> cp_frame c = Some fr -> In fr frames) ->
   (forall c, In c cs -> cp_store c = []) ->
